@@ -215,7 +215,7 @@ func (c *campaign) compare(tag string, k int, out string) bool {
 
 // classifyExit turns a follower that ended by itself into a violation (or not).
 // sidecar: last sidecar TXID (0 = none), dbExists: output file present before the start.
-func classifyExit(res *vf.Result, tag, msg string, restarted, dbExists bool, sidecar, repMax, floor int, cfg string) {
+func classifyExit(res *vf.Result, tag, msg string, restarted, dbExists bool, sidecar, repMax, floor int, pathOK bool, cfg string) {
 	res.Evals++
 	switch {
 	case restarted && dbExists && sidecar < 0:
@@ -224,8 +224,10 @@ func classifyExit(res *vf.Result, tag, msg string, restarted, dbExists bool, sid
 	case restarted && dbExists && sidecar == 0:
 		res.Count("exit_refused_no_sidecar", 1)
 		res.Violate("resume-refused-no-sidecar", "%s: restarted follower refuses to resume: the restored database was published but its first -txid sidecar was not (killed in between): %s", tag, msg)
-	case restarted && dbExists && (sidecar > repMax || sidecar < floor):
-		// outside the property's precondition (history pruned below the follower, or follower ahead of the replica)
+	case restarted && dbExists && (sidecar > repMax || (sidecar < floor && !pathOK)):
+		// outside the property's precondition (history pruned below the follower, or follower ahead of the replica).
+		// A sidecar below the oldest snapshot alone is inside it as long as every TXID above the sidecar is
+		// still covered by the files of levels 0..8 (pathOK).
 		res.Count("exit_outside_precondition", 1)
 		res.Logf("%s: follower exited outside the precondition (sidecar=%d replica max=%d floor=%d): %s", tag, sidecar, repMax, floor, msg)
 	case strings.Contains(msg, "is ahead of latest snapshot"):
@@ -412,7 +414,7 @@ func (c *campaign) run(tag string, count bool, kills []int, adv []int) (*runResu
 				if code >= 128 {
 					return nil, fmt.Errorf("%s: follower process ended by a signal the harness did not send (code %d): %s", tag, code, msg)
 				}
-				classifyExit(res, tag, msg, inc > 0, dbExists, sidecarAtStart, st.Max, st.Floor, c.sc.Cfg)
+				classifyExit(res, tag, msg, inc > 0, dbExists, sidecarAtStart, st.Max, st.Floor, pathOK, c.sc.Cfg)
 				return rr, nil
 			case awStalled:
 				res.Evals++
